@@ -601,6 +601,53 @@ func advCastle(rng *rand.Rand, p *ref.Pos) {
 	addRights(rng, p, 0.9)
 }
 
+// Castle builds positions with kings and rooks at home, assorted pieces on the back ranks and
+// attackers aimed at the castling paths (either side to move).
+func Castle(rng *rand.Rand) (ref.Pos, bool) {
+	var p ref.Pos
+	p.EP = -1
+	p.White = true
+	p.Full = 1 + rng.IntN(60)
+	p.Half = rng.IntN(20)
+	advCastle(rng, &p)
+	if p.KingSq(false) < 0 {
+		if rng.IntN(2) == 0 {
+			put(&p, 4, 7, -ref.K)
+			put(&p, 7, 7, -ref.R)
+			put(&p, 0, 7, -ref.R)
+		} else {
+			place(rng, &p, -ref.K)
+		}
+	}
+	// back-rank clutter next to the rooks (b/c/d/f/g files)
+	for _, rk := range []int{0, 7} {
+		for _, f := range []int{1, 2, 3, 5, 6} {
+			if rng.IntN(5) == 0 {
+				v := int8(2 + rng.IntN(4))
+				if rng.IntN(2) == 0 {
+					v = -v
+				}
+				put(&p, f, rk, v)
+			}
+		}
+	}
+	nf := rng.IntN(6)
+	for i := 0; i < nf; i++ {
+		v := int8(1 + rng.IntN(5))
+		if rng.IntN(2) == 0 {
+			v = -v
+		}
+		place(rng, &p, v)
+	}
+	p.Castle = 0
+	addRights(rng, &p, 0.9)
+	p.White = rng.IntN(2) == 0
+	if !p.Valid() {
+		return p, false
+	}
+	return p.Normalised(), true
+}
+
 // MoveBias selects how PickMove weighs moves.
 type MoveBias int
 
@@ -739,7 +786,11 @@ func Shuffle(rng *rand.Rand, start ref.Pos, maxPlies int, back float64, clockCap
 // AnyPos draws a valid position from a mix of all random generators and corpus playouts.
 func AnyPos(rng *rand.Rand) ref.Pos {
 	for {
-		switch rng.IntN(7) {
+		switch rng.IntN(8) {
+		case 7:
+			if p, ok := Castle(rng); ok {
+				return p
+			}
 		case 6:
 			if p, ok := PrePush(rng); ok {
 				return p
